@@ -171,3 +171,37 @@ Theorem C04_state_frame : forall fuel,
   (forall E q s d, dethunk fuel E q (sapp s d) = xlift s (dethunk fuel E q d)).
 Proof. exact frame_inv. Qed.
 Print Assumptions C04_state_frame.
+
+(* ---- "a field that fails contributes null together with an error whose path addresses that
+   field" (Proofs/ExecErrors.v): for every resolver invocation of a request whose outcome is, at
+   once, a failure (an error, a value together with an error, a panic with an error, a string or
+   any other value) the response carries an error with exactly that field's response path and
+   the field's occurrences as locations -- wherever the resulting null ends up, and whether or
+   not data itself was nulled.  (C18_error_paths_address_null is the converse direction: every
+   reported path addresses a null.)  A deferred outcome fails when it is forced. *)
+From GQL Require Import Proofs.ExecErrors.
+Theorem C04_failed_field_has_error : forall fuel S D opn inputs root or tor data s,
+  request fuel S D opn inputs root or tor = RDone data s ->
+  exists op vars,
+    get_operation D opn = Some op /\
+    get_variable_values fuel S (o_vars op) inputs = Some (inl vars) /\
+    let E := {| en_S := S; en_D := D; en_vars := vars; en_or := or; en_tor := tor;
+                en_serial := match o_kind op with OpMutation => true | _ => false end |} in
+    forall c, In c (st_calls s) -> fails_now E c -> reported (st_errs s) c.
+Proof. exact request_failures_reported. Qed.
+Print Assumptions C04_failed_field_has_error.
+
+(* not vacuous: in the request of C04_nonvacuous the resolver of "s" fails at once (a value
+   together with an error) and its error is reported with its path and its occurrence *)
+Example C04_failed_field_nonvacuous :
+  match request 20 S4 D4 None [] (RObj 0%N "root") or4 (fun _ => None) with
+  | RDone (Some d) s =>
+    exists c, In c (st_calls s) /\ c_path c = [PKey "s"] /\
+              or4 (c_path c) = Some (OValErr (RStr "leak")) /\ force (OValErr (RStr "leak")) = (OValErr (RStr "leak"), false) /\
+              In {| e_path := [PKey "s"]; e_nodes := [4%N] |} (st_errs s)
+  | _ => False
+  end.
+Proof.
+  vm_compute. eexists. split; [right; left; reflexivity|].
+  repeat split. left. reflexivity.
+Qed.
